@@ -2,8 +2,7 @@ import Asn1Proofs.Lemmas.CostPerComp
 /-
   C08 for the ALIGNED PER model: fuel sufficiency.  The fuel-indexed loops of the decoder are
   `decChunks` and `decChunksBits` (`read_length_determinant_chunks`); every chunk costs at least 8
-  bits and no reader ever lengthens the remaining input (alignment drops bits, the CHOICE rewind goes
-  back to a point behind the start of the CHOICE), so any amount of fuel larger than the number of
+  bits and no reader ever lengthens the remaining input (alignment only drops bits), so any amount of fuel larger than the number of
   remaining bits gives the same result: the out-of-fuel branch is dead.  No hypothesis on the type.
 -/
 set_option linter.unusedSimpArgs false
@@ -38,8 +37,8 @@ theorem decRepeat_congr {α : Type} {p p' : St → DecM (α × St)} (hp : NIP p)
 theorem nip_decRepeat {α : Type} {p : St → DecM (α × St)} (hp : NIP p) (n : Nat) :
     NIP (decRepeat p n) := by
   intro s xs r h
-  exact (decRepeat_ok (size := fun _ => 0) (K := 0) (N := s.bs.length)
-    (fun s a r h _ => ⟨hp s a r h, by simp⟩) n h (Nat.le_refl _)).1
+  exact (decRepeat_ok (size := fun _ => 0) (K := 0)
+    (fun s a r h => ⟨hp s a r h, by simp⟩) n h).1
 
 /-- **fuel sufficiency of the chunk loop**: with more fuel than remaining bits, the result of
 `decChunks` does not depend on the fuel (nor on how the item decoder behaves on longer inputs) -/
@@ -249,8 +248,7 @@ theorem fip_sequence (root : Members) (ext : Bool) (adds : Members)
   rw [← fip_decMembers root ihr f f' flags r1 (by omega) (by omega)]
   refine bind_congr_ok ?_
   rintro ⟨fields, r2⟩ h2
-  have hl2 := (szp_decMembers root (members_all_of_forall szp_all root) f r1.bs.length _ _ _ _ h2
-    (Nat.le_refl _)).1
+  have hl2 := (szp_decMembers root (members_all_of_forall szp_all root) f _ _ _ _ h2).1
   dsimp only
   split
   · refine bind_congr_ok ?_
